@@ -26,6 +26,7 @@ type job struct {
 	count      uint64
 	budgetMult int
 	alone      bool // re-run of a single suspicious case
+	noMin      bool // the child gave up while minimising: run again without minimisation
 	label      string
 }
 
@@ -138,6 +139,9 @@ func cmdRun(args []string) int {
 		args := []string{"worker", "--property", cf.property, "--tier", cf.tier, "--seed", fmt.Sprint(cf.seed), "--verif-dir", cf.verifDir,
 			"--gen", j.seg.Gen, "--profile", j.seg.Profile, "--from", fmt.Sprint(j.from), "--count", fmt.Sprint(j.count),
 			"--out", base + ".json", "--cur", base + ".cur", "--budget-mult", fmt.Sprint(j.budgetMult)}
+		if j.noMin {
+			args = append(args, "--no-minimise")
+		}
 		cmd := exec.Command(bin, args...)
 		errFile, _ := os.Create(base + ".stderr")
 		cmd.Stdout = errFile
@@ -192,6 +196,9 @@ func cmdRun(args []string) int {
 			out.reason = "death"
 			if ee, ok := werr.(*exec.ExitError); ok && ee.ExitCode() == 3 {
 				out.reason = "cpu_budget"
+			}
+			if ee, ok := werr.(*exec.ExitError); ok && ee.ExitCode() == 4 {
+				out.reason = "minimiser"
 			}
 		}
 		if cb, err := os.ReadFile(base + ".cur"); err == nil && len(cb) >= 8 {
@@ -261,6 +268,12 @@ func cmdRun(args []string) int {
 		}
 		// child ended abnormally at o.curIdx
 		j := o.job
+		if o.reason == "minimiser" && !j.noMin {
+			agg.Counters["batches_rerun_without_minimisation"]++
+			j.noMin = true
+			queue = append(queue, j)
+			continue
+		}
 		if j.alone {
 			rec := ViolationRec{Property: cf.property, Gen: j.seg.Gen, Profile: j.seg.Profile, Index: o.curIdx,
 				Code: o.reason, Msg: fmt.Sprintf("child process ended (%s) on this case, twice; stderr tail:\n%s", o.reason, o.stderr)}
